@@ -35,6 +35,7 @@ size_t (*libsci_verif_nproc)(size_t) = 0;
 void   (*libsci_verif_slice)(const char *, size_t, size_t, size_t, size_t) = 0;
 void   (*libsci_verif_iter)(const char *, size_t, double, double, double) = 0;
 void   (*libsci_verif_cv)(const char *, size_t, size_t, size_t, const void *) = 0;
+void   (*libsci_verif_state)(const char *, size_t, const void *, const void *, const void *) = 0;
 #endif
 
 void *xmalloc(size_t size)
